@@ -43,8 +43,8 @@ def main(tier):
     scratch = common.scratch_dir("c15")
     states = trans = 0
     try:
-        L = 3 if tier == "quick" else 4
-        r = tlc.run("Session", dict(spec="Spec", constants=dict(MaxLen=L + 1, BackwardReads="ctx", ElementsMode="extend"), invariants=INV), scratch=scratch, timeout=3000)
+        L = 4
+        r = tlc.run("Session", dict(spec="Spec", constants=dict(MaxLen=L + (0 if tier == "quick" else 1), BackwardReads="ctx", ElementsMode="extend"), invariants=INV), scratch=scratch, timeout=3000)
         states += r.distinct
         trans += r.generated
         if r.error:
@@ -69,13 +69,20 @@ def main(tier):
         model = {key(rr["hist"]): rr for rr in recs}
         full = [rr for rr in recs if len(rr["hist"]) == L]
         interesting = [rr for rr in full if any(a["op"] == "bwd" for a in rr["hist"]) or len({session_driver.JOBS[a["job"]]["dict"] for a in rr["hist"] if a["op"] == "fwd"}) < len([a for a in rr["hist"] if a["op"] == "fwd"])]
-        n = 70 if tier == "quick" else 700
+        n = 60 if tier == "quick" else 900
         must_keys = [
             [["fwd", "tight"], ["fwd", "loose"], ["bwd", ["loose", "tight"]]],
             [["fwd", "tight"], ["fwd", "nh3A"], ["fwd", "h2oA"]],
             [["fwd", "radA"], ["fwd", "h2oA"], ["fwd", "tight"]],
             [["fwd", "mdF"], ["fwd", "cisC"], ["fwd", "uhfD"]],
-        ] if L == 3 else []
+        ]
+        must_keys = [k + [["fwd", "h2oA"]] for k in must_keys] + [
+            [["fwd", "tight"], ["bwd", ["tight"]], ["fwd", "loose"], ["bwd", ["loose"]]],
+            [["fwd", "loose"], ["bwd", ["loose"]], ["fwd", "tight"], ["bwd", ["tight"]]],
+            [["fwd", "dispG"], ["fwd", "dispH"], ["fwd", "dispG"], ["fwd", "h2oA"]],
+            [["fwd", "dispH"], ["fwd", "dispG"], ["fwd", "dispH"], ["fwd", "cisC"]],
+            [["fwd", "tight"], ["fwd", "tight"], ["bwd", ["tight"]], ["fwd", "nh3A"]],
+        ]
         must = [model[json.dumps(k)] for k in must_keys if json.dumps(k) in model]
         pick = must + common_sample(rng, [h for h in interesting if h not in must], n * 2 // 3) + common_sample(rng, full, n // 3)
         cases = [{"id": "h%04d" % i, "hist": h["hist"], "workdir": os.path.join(scratch, "w%04d" % i)} for i, h in enumerate(pick)]
